@@ -20,7 +20,40 @@ COMPONENTS = {
     'stub': 'threading primitives, time, socket (RT); nothing in NRT'}
 
 
+def scenario_late_parent(tp):
+    """Directed template: a TempoClock is kept busy by a marker routine
+    while a parent on SystemClock, woken late (loaded machine), plays
+    children on that TempoClock: each child begins at its parent's logical
+    time although the clock has served later beats meanwhile."""
+    tempo = tp.choice([1, 2, 4])
+    marker = [['rec']]
+    for _ in range(24 + tp.draw(24)):
+        marker += [['wait', tp.choice([1 / 32, 1 / 16, 1 / 64])], ['rec']]
+    routines = [{'clock': 'sys', 'quant': None, 'seed': None,
+                 'body': [['rec'], ['spawn', 1]]},
+                {'clock': 't0', 'quant': 0, 'seed': None, 'body': marker}]
+    for i in range(2 + tp.draw(3)):
+        cid = len(routines)
+        routines[0]['body'] += [['wait', tp.choice([0.125, 0.25, 0.1875])],
+                                ['rec'], ['spawn', cid]]
+        routines.append({'clock': 't0', 'quant': 0, 'seed': None,
+                         'body': [['rec'], ['wait', 0.5], ['rec'],
+                                  ['wait', 0.25], ['rec']]})
+    return {'t0': rprog.T0, 'clocks': [{'tempo': tempo, 'beats': 0}],
+            'routines': routines}
+
+
 def gen_case(tp, tier):
+    if tp.draw(10) == 0:
+        prog = scenario_late_parent(tp)
+        ff = C.gen_knobs(tp, fault_free_pm=1000)
+        k1 = C.gen_knobs(tp, fault_free_pm=0)
+        k2 = C.gen_knobs(tp, fault_free_pm=0)
+        k1['lat'] = 5
+        k2['lat'] = tp.choice([5, 3])
+        k2['line_mean'] = 0
+        return {'prog': prog, 'knobs': [ff, k1, k2], 'driver': [],
+                'scenario': 'late-parent'}
     feat = {'tempo_clocks': True, 'init_beats': tp.draw(2) == 0,
             'odd_deltas': tp.draw(2) == 0, 'app': tp.draw(5) == 0,
             'embed': True, 'inf_wait': True}
@@ -152,6 +185,8 @@ def run_case(case, tape, ctx):
              if st[0] == 'embed')
     if ne:
         stats['embedded-routines'] = ne
+    if case.get('scenario'):
+        stats['scenario-' + case['scenario']] = 1
     model = rprog.Model(prog).run()
     has_app = any(r['clock'] == 'app' and r['body']
                   for r in prog['routines'])
